@@ -151,10 +151,22 @@ def run(ctx):
     samples = []
     sp = os.path.join(cases, "samples.txt")
     if os.path.exists(sp):
-        samples = [l[:400] for l in open(sp).read().splitlines() if l.strip()][:12]
+        by_leg = {}
+        for l in open(sp).read().splitlines():
+            if l.strip():
+                by_leg.setdefault(l.split(":")[0], []).append(l[:600])
+        for leg in sorted(by_leg):                      # three actual cases of every leg
+            n = len(by_leg[leg])
+            samples += [by_leg[leg][i] for i in sorted({0, n // 2, n - 1})]
+
+    def acc_distinct(acc, cases, distinct):
+        # accepted cases minus the number of repeated inputs (conservative: every repeat is
+        # assumed to be an accepted one)
+        return max(0, summary.get(acc, 0) - (summary.get(cases, 0) - summary.get(distinct, 0)))
     distinct_nontrivial = (summary.get("distinct_compress_inputs", 0)
-                           + summary.get("decompress_accepted", 0)
-                           + summary.get("ser_accepted", 0) + summary.get("de_accepted", 0))
+                           + acc_distinct("decompress_accepted", "decompress_cases", "distinct_decompress_inputs")
+                           + acc_distinct("ser_accepted", "ser_cases", "distinct_ser_programs")
+                           + acc_distinct("de_accepted", "de_cases", "distinct_de_inputs"))
     ctx.cov.update({
         "obligations": pr["obligations"] if pr else 0,
         "discharged": pr["discharged"] if pr else 0,
@@ -167,10 +179,9 @@ def run(ctx):
         "rule": "correspondence cases = compress vectors + decompress inputs + (versions, program) inputs "
                 "of sierra_to_felt252s + felt vectors given to sierra_from_felt252s. A case is non-trivial "
                 "when the implementation accepted it (produced a serialization / a vector / a program): "
-                "distinct_nontrivial = distinct compress inputs + accepted decompress inputs + accepted "
-                "ser inputs + accepted de inputs, all counted by the harness (distinctness by printed "
-                "input for compress; ser/de/decompress inputs are distinct up to random collisions, see "
-                "input_distribution.distinct_*). ser_cases_in_theorem_domain = cases with ser_ok = true, "
+                "distinct_nontrivial = distinct compress inputs + for each of decompress/ser/de: accepted "
+                "cases minus repeated inputs (cases - distinct inputs, every repeat counted against the "
+                "accepted ones), all counted by the harness (distinctness by printed input). ser_cases_in_theorem_domain = cases with ser_ok = true, "
                 "counted inside Coq.",
         "ser_cases_in_theorem_domain": n_ser_ok,
         "input_distribution": summary,
